@@ -24,43 +24,54 @@ pub fn reset_ledger() {
 }
 pub fn live_ids() -> Vec<u64> { LIVE.with(|v| v.borrow().iter().cloned().filter(|x| *x < SCRATCH_ID).collect()) }
 
-/// An owned item whose live values are never all-zero bytes; construction, cloning and destruction are recorded.
-#[repr(C)]
-pub struct Owned { pub id: u64, canary: u64 }
-
-impl Owned {
-    pub fn new(id: u64) -> Self {
-        LIVE.with(|v| v.borrow_mut().insert(id));
-        Owned { id, canary: CANARY }
-    }
-    pub fn scratch() -> Self {
-        let id = NEXT_SCRATCH.with(|c| { let x = c.get(); c.set(x + 1); x });
-        Self::new(id)
-    }
-}
-
-impl Clone for Owned {
-    fn clone(&self) -> Self {
-        let id = NEXT_CLONE.with(|c| { let x = c.get(); c.set(x + 1); x });
-        if self.id == 0 { log("zeroread".into()); }
-        else {
-            if self.canary != CANARY { log(format!("badcanary{}", self.id)); }
-            log(format!("make{}", id));
+/// Owned items whose live values are never all-zero bytes; construction, cloning and destruction are recorded.
+/// Three layouts: `Owned` (16 bytes, identity first), `Owned24` (24 bytes, the first word of a live value is zero),
+/// `Owned4` (4 bytes).
+macro_rules! owned_type {
+    ($name:ident, $idty:ty, { $($pre:ident : $prety:ty = $preval:expr),* }, { $($post:ident : $postty:ty = $postval:expr),* }) => {
+        #[repr(C)]
+        pub struct $name { $($pre: $prety,)* pub id: $idty, $($post: $postty,)* }
+        impl $name {
+            pub fn new(id: u64) -> Self {
+                LIVE.with(|v| v.borrow_mut().insert(id));
+                $name { $($pre: $preval,)* id: id as $idty, $($post: $postval,)* }
+            }
+            fn intact(&self) -> bool { true $(&& self.$post == $postval)* $(&& self.$pre == $preval)* }
         }
-        Owned::new(id)
-    }
+        impl Clone for $name {
+            fn clone(&self) -> Self {
+                let id = NEXT_CLONE.with(|c| { let x = c.get(); c.set(x + 1); x });
+                if self.id == 0 { log("zeroread".into()); }
+                else {
+                    if !self.intact() { log(format!("badcanary{}", self.id)); }
+                    log(format!("make{}", id));
+                }
+                $name::new(id)
+            }
+        }
+        impl Drop for $name {
+            fn drop(&mut self) {
+                if self.id == 0 { log("zerodrop".into()); return; }
+                if !self.intact() { log(format!("badcanary{}", self.id)); return; }
+                let id = self.id as u64;
+                let was = LIVE.with(|v| v.borrow_mut().remove(&id));
+                if !was { log(format!("doubledrop{}", id)); return; }
+                if id >= SCRATCH_ID { return; }
+                if !EXPECT_DROP.with(|c| c.get()) { log(format!("drop{}", id)); }
+            }
+        }
+        impl Item for $name {
+            const OWNED: bool = true;
+            fn make(v: u64) -> Self { $name::new(v) }
+            fn zero() -> Self { unsafe { std::mem::zeroed() } }
+            fn scratch() -> Self { let id = NEXT_SCRATCH.with(|c| { let x = c.get(); c.set(x + 1); x }); $name::new(id) }
+            unsafe fn peek(p: *const Self) -> u64 { std::ptr::read_unaligned(std::ptr::addr_of!((*p).id)) as u64 }
+        }
+    };
 }
-
-impl Drop for Owned {
-    fn drop(&mut self) {
-        if self.id == 0 { log("zerodrop".into()); return; }
-        if self.canary != CANARY { log(format!("badcanary{}", self.id)); return; }
-        let was = LIVE.with(|v| v.borrow_mut().remove(&self.id));
-        if !was { log(format!("doubledrop{}", self.id)); return; }
-        if self.id >= SCRATCH_ID { return; }
-        if !EXPECT_DROP.with(|c| c.get()) { log(format!("drop{}", self.id)); }
-    }
-}
+owned_type!(Owned, u64, {}, { canary: u64 = CANARY });
+owned_type!(Owned24, u64, { pad: u64 = 0 }, { canary: u64 = CANARY });
+owned_type!(Owned4, u32, {}, {});
 
 /// What the interpreter needs from an item type.
 pub trait Item: Clone + 'static {
@@ -84,11 +95,4 @@ impl Item for u64 {
     fn zero() -> Self { 0 }
     fn scratch() -> Self { 0 }
     fn add(&mut self, d: u64) { *self = self.wrapping_add(d); }
-}
-
-impl Item for Owned {
-    const OWNED: bool = true;
-    fn make(v: u64) -> Self { Owned::new(v) }
-    fn zero() -> Self { unsafe { std::mem::zeroed() } }
-    fn scratch() -> Self { Owned::scratch() }
 }
